@@ -738,7 +738,58 @@ pub fn c11_search(run: &Run) -> (u64, u64) {
             judge(&Session { hash_mb: 1, start_gen: 0, steps }, &format!("{} (halfmove clock 99: a quiet move reaches the fifty-move limit)", p99.to_fen()));
         }
     });
-    let c = cases.load(Ordering::Relaxed);
+    // (c) dead material just beyond the horizon: roots (king and rook or queen v king and minor, the stronger side to
+    // move) in which EVERY legal move is answered by a capture that leaves king and minor v king or bare kings, and
+    // no root move captures or mates. Whatever the depth, every line ends in a dead position at once, and a dead
+    // position scores 0 wherever the search meets it (in the capture search too): every reported score is cp 0.
+    let dead = |p: &Pos| -> bool {
+        let men: Vec<(Color, Kind)> = p.board.iter().flatten().copied().filter(|(_, k)| *k != Kind::K).collect();
+        men.is_empty() || (men.len() == 1 && matches!(men[0].1, Kind::B | Kind::N))
+    };
+    let mut horizon_roots: Vec<Pos> = vec![];
+    for strong in [Kind::R, Kind::Q] {
+        for weak in [Kind::B, Kind::N] {
+            for wk in [0u8, 2, 9, 18, 27, 36] {
+                crate::families::enumerate_material(wk, &[(Color::W, strong), (Color::B, weak)], &mut |p: &Pos| {
+                    if p.side != Color::W || p.in_check(Color::W) {
+                        return;
+                    }
+                    let ms = p.legal_moves();
+                    if ms.is_empty() || ms.iter().any(|m| m.capture) {
+                        return;
+                    }
+                    let all_answered = ms.iter().all(|m| {
+                        let q = p.apply(m);
+                        q.legal_moves().iter().any(|c| c.capture && dead(&q.apply(c)))
+                    });
+                    if all_answered {
+                        horizon_roots.push(p.clone());
+                        horizon_roots.push(p.mirror());
+                    }
+                });
+            }
+        }
+    }
+    let hn = AtomicU64::new(0);
+    par_for(horizon_roots.len(), |i| {
+        let p = &horizon_roots[i];
+        hn.fetch_add(1, Ordering::Relaxed);
+        let g = GameSpec::fen(&p.to_fen());
+        let sess = Session { hash_mb: 1, start_gen: 0, steps: (1..=3u8).map(|d| Step::Search(g.clone(), Spec::depth(d), Env::Default)).collect() };
+        let tr = exec_session(run, Focus::C04, &sess, &stats, DEFAULT_NODE_BUDGET);
+        for (si, (_, infos)) in tr.iter().enumerate() {
+            for inf in infos {
+                if inf.score.0 || inf.score.1 != 0 {
+                    run.violation("search-ignores-draw", format!("search-ignores-dead-position|{}|{si}", p.to_fen()), sess.json(si), format!("{}: every move is answered by a capture into a dead position, yet depth {} reports {} {} (line {})", p.to_fen(), inf.depth, if inf.score.0 { "mate" } else { "cp" }, inf.score.1, inf.pv.join(" ")));
+                    return;
+                }
+            }
+        }
+    });
+    let h = hn.load(Ordering::Relaxed);
+    run.count("dead_at_horizon_roots", h);
+    run.family("DEAD-AT-HORIZON", "all positions king + rook / queen (to move) v king + bishop / knight with the stronger side's king on 6 squares (and the colour-mirrored twins) in which every legal move is answered by a capture leaving a dead position: searched at depth 1, 2, 3; every reported score must be cp 0", h, 3 * h, true, "");
+    let c = cases.load(Ordering::Relaxed) + h;
     run.count("search_draw_cases", c);
     run.count("search_draw_negative_baselines", negative_baselines.load(Ordering::Relaxed));
     run.family("SEARCH-TREATS-DRAWS", &format!("{} losing roots; per root up to {} histories m1 r1 m1^-1 r1^-1 returning to the root (then m1 repeats) and the root with the clock at 99; tables pre-filled by a depth-{} search without history; searches at depth 1..={depth} must report a score >= 0", roots.len(), if quick { 6 } else { 40 }, depth + 1), c, stats.searches.load(Ordering::Relaxed), true, "sound because a root move into a drawn position scores exactly 0");
